@@ -670,6 +670,21 @@ def indexing_with_non_integer(prog, rng):
     return add_stmt(prog, rng, di, ("assign", v, ("lit", "1"))), "IndexingWithNonInteger"
 
 
+def negated_boolean(prog, rng):
+    """rule probe without a message of its own: unary minus applied to a comparison.  SPL requires an integer
+    operand (the reference compiler reports the arithmetic-operand error)."""
+    c = [s for s in sites(prog) if s[0] == "expr" and s[3][1] == "cond"]
+    if c and rng.random() < 0.8:
+        _, path, e, _ = rng.choice(c)
+        return put(prog, path, ("neg", ("par", e))), "ArithmeticOperatorNonInteger"
+    di = ensure_proc(prog, rng)
+    return add_stmt(prog, rng, di, ("if", ("neg", ("par", bool_expr(rng))), ("empty",), None)), \
+        "ArithmeticOperatorNonInteger"
+
+
+# probes of SPL rules beyond the 27 one-message-one-rule injectors (reported separately by semtest.py)
+PROBES = [negated_boolean]
+
 INJECTORS = [
     undefined_type, not_a_type, redeclaration_as_type, must_be_a_reference_parameter, redeclaration_as_procedure,
     redeclaration_as_parameter, redeclaration_as_variable, main_is_missing, main_is_not_a_procedure,
